@@ -175,11 +175,19 @@ class IsLcEquivalent(NxHarness):
             from symnp import install as sinstall
             from symnp.engine import OutsideClaim
 
-            def outside(*a, **k):
-                raise OutsideClaim("random mode's 1000-trial RNG loop (_random_checker) -- only the shared len(basis)<5 branch is claimed")
+            import graphiq.backends.lc_equivalence_check as lcmod
+            real = lcmod._random_checker
+            flag = self
 
-            sinstall.stub("graphiq.backends.lc_equivalence_check", "_random_checker", outside,
-                          "paths that enter the RNG trial loop are cut and counted as outside the claim")
+            def two_trials(reduced, col_list, trial_count=1000, seed=0):
+                # the 1000-trial loop is bounded to 2 trials with SYMBOLIC draws: enough to judge the soundness of a
+                # "yes" found in the first or in a later trial; a "no" after 2 trials is not judged (outside the claim)
+                flag._went_random = True
+                return real(reduced, col_list, trial_count=2, seed=seed)
+
+            sinstall.stub("graphiq.backends.lc_equivalence_check", "_random_checker", two_trials,
+                          "random mode: the real _random_checker runs with trial_count=2 and symbolic np.random.randint draws; "
+                          "only the soundness of a 'yes' is judged on such paths")
 
     def input_space(self):
         return self.n * (self.n - 1)
@@ -192,7 +200,15 @@ class IsLcEquivalent(NxHarness):
 
         n = self.n
         a1, a2 = cells(spec["g1"]["adj"]), cells(spec["g2"]["adj"])
+        self._went_random = False
         ok, sol = lc.is_lc_equivalent(spec["g1"]["adj"].copy(), spec["g2"]["adj"].copy(), mode=self.mode)
+        if not ok and self._went_random and S.symbolic:
+            S.info["random_no_not_judged"] = 1
+            S.prove("random-mode-no-after-2-trials-not-judged", True)
+            return
+        if not ok and self.mode == "random" and not S.symbolic:
+            # concrete replay of a random-mode path: the real 1000-trial loop ran; a "no" is not judged either
+            return
         if not ok:
             S.info["answered_no"] = 1
             Q = [[S.aux_bit(f"Q{i}{k}") for k in range(4)] for i in range(n)]
@@ -344,6 +360,9 @@ class LcCheckTableau(NxHarness):
         else:
             g1 = nx.from_numpy_array(np.asarray(spec["g1"]["adj"]))
         t2 = fresh_stabilizer(spec["t2"])
+        if getattr(self, "kind", "stabilizer") == "clifford":
+            from graphiq.backends.stabilizer.clifford_tableau import CliffordTableau
+            t2 = CliffordTableau(t2)
         if self.order == "graph-first":
             ok, gates = lce.lc_check(g1, t2, validate=False)
             src, dst = graph_rows(a1, n), stab_rows(spec["t2"])
@@ -390,6 +409,7 @@ def plan(tier):
             jobs.append((h, {"time_budget": 2 * 3600, "chunk_paths": 32}))
     for order in ("graph-first", "tableau-first"):
         jobs.append((LcCheckTableau(n=2, order=order), {}))
+        jobs.append((LcCheckTableau(n=2, order=order, kind="clifford"), {}))
         h = LcCheckTableau(n=3, order=order)
         h.parallel = True
         h.partial_ok = True
